@@ -90,7 +90,7 @@ func c04(c *Ctx) {
 				// back edge: leaves of the phi tree
 				hasRsp := false
 				for _, leaf := range phiLeaves(e) {
-					if ci, isCall := leaf.(*ssa.Call); isCall && strings.HasSuffix(cfgx.CalleeName(ci), "RunFunctionResponse)."+fld.getter) && ci.Call.Args[0] == rsp {
+					if ci, isCall := leaf.(*ssa.Call); isCall && strings.HasSuffix(cfgx.CalleeName(ci), "RunFunctionResponse)."+fld.getter) && sole(ci.Call.Args[0]) == rsp {
 						hasRsp = true
 					}
 				}
@@ -99,11 +99,63 @@ func c04(c *Ctx) {
 				}
 				for _, leaf := range phiLeaves(e) {
 					if leaf == ssa.Value(phi) {
-						good, why = false, "an older "+fld.name+" can be carried over a step (self-carry)"
+						// structurally the old value can reach the back edge; it does only if a
+						// feasible way round the loop enters the joins on the way through an
+						// edge that carries the old value
+						carries := map[ssa.Value]bool{phi: true}
+						avoid := map[cfgx.Edge]bool{}
+						for changed := true; changed; {
+							changed = false
+							for _, bb := range fc.Blocks {
+								if !loop[bb] || bb == hdr {
+									continue
+								}
+								for _, in := range bb.Instrs {
+									q, isPhi := in.(*ssa.Phi)
+									if !isPhi {
+										break
+									}
+									if carries[q] {
+										continue
+									}
+									for _, op := range q.Edges {
+										if carries[op] {
+											carries[q] = true
+											changed = true
+										}
+									}
+								}
+							}
+						}
+						for q := range carries {
+							qp, isPhi := q.(*ssa.Phi)
+							if !isPhi || qp == phi {
+								continue
+							}
+							for k, op := range qp.Edges {
+								if !carries[op] {
+									pr := qp.Block().Preds[k]
+									for si, sc := range pr.Succs {
+										if sc == qp.Block() {
+											avoid[cfgx.Edge{From: pr, Idx: si}] = true
+										}
+									}
+								}
+							}
+						}
+						var starts []cfgx.Edge
+						for si, sc := range hdr.Succs {
+							if loop[sc] {
+								starts = append(starts, cfgx.Edge{From: hdr, Idx: si})
+							}
+						}
+						if reach, _ := cfgx.ReachFromEdges(starts, avoid); reach[hdr] {
+							good, why = false, "an older "+fld.name+" can be carried over a step (self-carry)"
+						}
 						continue
 					}
 					ci, isCall := leaf.(*ssa.Call)
-					if isCall && strings.HasSuffix(cfgx.CalleeName(ci), "RunFunctionResponse)."+fld.getter) && ci.Call.Args[0] == rsp {
+					if isCall && strings.HasSuffix(cfgx.CalleeName(ci), "RunFunctionResponse)."+fld.getter) && sole(ci.Call.Args[0]) == rsp {
 						continue
 					}
 					if isFreshAlloc(leaf, fld.fresh) {
@@ -120,7 +172,7 @@ func c04(c *Ctx) {
 					nm := cfgx.CalleeName(x)
 					if (strings.HasSuffix(nm, "v1.State).GetResources") || strings.HasSuffix(nm, "v1.State).GetComposite")) && !loop[x.Block()] {
 						n++
-						c.R.Check(x.Common().Args[0] == ssa.Value(phi), site(x)+" final-desired", c.pos(x.Pos()), "reads the last step's desired state", "the desired state used after the pipeline is not the last step's output")
+						c.R.Check(carries(cfgx.ResolveAt(x.Common().Args[0], x.Block()), phi), site(x)+" final-desired", c.pos(x.Pos()), "reads the last step's desired state", "the desired state used after the pipeline is not the last step's output")
 					}
 				}
 				if n == 0 {
@@ -252,7 +304,7 @@ func c04(c *Ctx) {
 		for _, k := range []struct{ getter, elem, field string }{{"GetConditions", "composite.TargetedCondition", "Conditions"}, {"GetResults", "composite.TargetedEvent", "Events"}} {
 			var get ssa.CallInstruction
 			for _, x := range cfgx.Calls(fc, nil) {
-				if strings.HasSuffix(cfgx.CalleeName(x), "RunFunctionResponse)."+k.getter) && x.Common().Args[0] == rsp {
+				if strings.HasSuffix(cfgx.CalleeName(x), "RunFunctionResponse)."+k.getter) && sole(x.Common().Args[0]) == rsp {
 					get = x
 				}
 			}
@@ -376,7 +428,7 @@ func c04(c *Ctx) {
 						sel := cfgx.CallArgs(fetch)[1]
 						latest := flow.Default.Any(sel, func(v ssa.Value) bool {
 							ci, ok := v.(*ssa.Call)
-							return ok && strings.HasSuffix(cfgx.CalleeName(ci), "RunFunctionResponse).GetRequirements") && ci.Call.Args[0] == rsp
+							return ok && strings.HasSuffix(cfgx.CalleeName(ci), "RunFunctionResponse).GetRequirements") && sole(ci.Call.Args[0]) == rsp
 						})
 						c.R.Check(latest, site(fetch)+" latest-selectors", c.pos(fetch.Pos()), "selectors come from the response just received", "the selectors fetched are not those of the latest response")
 						// key and selector from the same range
@@ -400,7 +452,7 @@ func c04(c *Ctx) {
 						fromRsp := func(v ssa.Value) bool {
 							return flow.Default.Any(v, func(y ssa.Value) bool {
 								ci, ok := y.(*ssa.Call)
-								return ok && strings.HasSuffix(cfgx.CalleeName(ci), "RunFunctionResponse).GetRequirements") && ci.Call.Args[0] == rsp
+								return ok && strings.HasSuffix(cfgx.CalleeName(ci), "RunFunctionResponse).GetRequirements") && sole(ci.Call.Args[0]) == rsp
 							})
 						}
 						carried := func(v ssa.Value) bool {
@@ -415,7 +467,7 @@ func c04(c *Ctx) {
 			c.R.Check(stab, load.FuncName(rf)+": until requirements stop changing", c.pos(inner[0].Pos()), "rounds end on whole-value equality of this round's and the previous round's requirements", "no whole-value equality (reflect.DeepEqual/proto.Equal/cmp.Equal) between this round's and the previous round's requirements decides when to stop: a changed requirement set may be treated as stable")
 			goodCtx := false
 			if ctxStore != nil {
-				if ci, ok := ctxStore.Val.(*ssa.Call); ok && strings.HasSuffix(cfgx.CalleeName(ci), "RunFunctionResponse).GetContext") && ci.Call.Args[0] == rsp {
+				if ci, ok := ctxStore.Val.(*ssa.Call); ok && strings.HasSuffix(cfgx.CalleeName(ci), "RunFunctionResponse).GetContext") && sole(ci.Call.Args[0]) == rsp {
 					goodCtx = true
 				}
 			}
